@@ -77,8 +77,9 @@ CLAIMS = {
     'C08': dict(level='proof',
         text='PROVED for all pairs (spike_templates, spike_clusters) of equal length >= 1 with non-negative ids: TemplateModel.get_merge_map returns one list per id 0..max, each list strictly increasing (no template twice), '
              'containing exactly the templates at least one spike of that id came from (both directions), and nan_idx lists exactly the ids whose list is empty (nested loop invariants over the int-keyed dict of lists). '
-             'BOUNDED only: the waveform half of the statement (_merge_templates weighted mean on the dominant template channels, single-template shortcut, clusters == templates identity) over exhaustive small '
-             'curation histories plus random ones against a direct reference.',
+             'cluster_waveforms (placement): one block per cluster id up to the maximum; a cluster stemming from a single template carries that template\'s stored waveform unchanged, a cluster without spikes is '
+             'all zero, a cluster stemming from several templates carries the result of get_cluster_mean_waveforms(c, unwhiten=False), transposed, on exactly the channels that call returns. '
+             'BOUNDED only: the weighted mean itself (get_cluster_mean_waveforms: floating point), the clusters == templates identity at load time, over exhaustive small curation histories plus random ones.',
         note='Assumed: the 1-D NumPy theory (np.unique, np.where/nonzero of a comparison, gather, np.max); an int-keyed dict built by {k: [] for k in range(N)} is modelled as a list of N lists (keys 0..N-1 in insertion order, '
              'which is what .items() iterates); template ids are mathematical integers (A-NOOVF).',
         assumptions=['A-LIB 1-D NumPy array theory (pyvc/npth.py)', 'A-NOOVF', 'A-DICT: {k: [] for k in range(N)} behaves as a list of N lists iterated in key order']),
